@@ -269,6 +269,7 @@ package isobmff
 //@   requires wf2(b)
 //@   modifies stream(b.reader.br), b.remain, b.outer.remain, b.outer.outer.remain, b.reader.offset
 //@   ensures [C11] remOK(b) && pos(b.reader.br) >= old(pos(b.reader.br)) && noInc(b) && charged(b) && exactTop(b)
+//@   ensures [C11] err == nil ==> b.remain == 0
 
 
 //@ func readCNCVBox
@@ -526,6 +527,8 @@ package isobmff
 //@   requires r.br != nil
 //@   modifies stream(r.br), r.offset, r.ftyp
 //@   ensures pos(r.br) >= old(pos(r.br))
+// exact resumption: a successful read of the ftyp box leaves the stream at the next top-level box (or at its end)
+//@   ensures [C11] err == nil ==> atEnd(r) || pos(r.br) == old(pos(r.br)) + int(boxSizeAt(r.br, old(pos(r.br))))
 
 //@ func (*Reader).ReadMetadata
 //@   props C01 C02 C11
